@@ -99,6 +99,9 @@ def clear_source_cache():
     _FILE_AST.clear()
 
 
+INLINED_FILES = set()       # files of every function whose body was interpreted (for the lock's source hash)
+
+
 def fn_source(fn):
     """(FunctionDef/Lambda node, class name for name mangling, qualname, file) of a real function."""
     code = fn.__code__
@@ -512,6 +515,7 @@ class Interp:
 
     def call_real_function(self, f, args, kwargs, node):
         fnode, clsname, qual, path = fn_source(f)
+        INLINED_FILES.add(path)
         # closure variables of the real function
         cenv = {}
         if f.__closure__:
